@@ -89,7 +89,7 @@ func vfC08Oracle(in *vfGWInst, evFull string, pre, post *vfSnap) {
 			if _, conn := post.Peers[p]; !conn {
 				continue // departed, not pruned
 			}
-			if f[0] == "prune" && f[1] == p && f[2] == t {
+			if (f[0] == "prune" || f[0] == "prunepx") && f[1] == p && f[2] == t {
 				continue // handled below (pruned by the peer)
 			}
 			if (f[0] == "outreset" || f[0] == "outclose") && f[1] == p {
@@ -107,7 +107,7 @@ func vfC08Oracle(in *vfGWInst, evFull string, pre, post *vfSnap) {
 			}
 		}
 	}
-	if f[0] == "prune" && g.conn[f[1]] {
+	if (f[0] == "prune" || f[0] == "prunepx") && g.conn[f[1]] {
 		p, t := f[1], f[2]
 		if _, joined := pre.Mesh[t]; joined && !(g.cfg.Scoring && pre.Score[p] < g.n.gs.graylistThreshold) {
 			length := params.PruneBackoff
@@ -203,6 +203,11 @@ func vfC08Scenarios(thorough bool) []*vfGWScenario {
 	mk("joined", "d2", 0, append(append([]string{}, prefix...), "join:t"), []string{"leave:t", "join:t", "hb", "graft:a:t", "prune:a:t:8", "prune:c:t", "graft:c:t", "disc:a", "conn:a", "sub:a:t", "adv:900", "adv:3100", "adv:14000"})
 	mk("retry", "d2", 1, append(append([]string{}, prefix...), "join:t"), []string{"leave:t", "join:t", "hb", "gate:a", "ungate:a", "prune:a:t:60", "graft:a:t", "score:a:-1", "score:a:0", "adv:2100"})
 	mk("tight", "d2tight", 0, append(append([]string{}, prefix...), "join:t", "hb"), []string{"leave:t", "join:t", "hb", "prune:a:t", "prune:b:t", "prune:c:t:60", "graft:a:t", "adv:1100", "adv:4100", "adv:14000"})
+	// PRUNEs that carry peer exchange, from peers above and below the accept-PX threshold (2): whether or not the
+	// offer is taken, the backoff counts
+	out = append(out, &vfGWScenario{Name: "px", Cfg: vfGWCfg{Router: "gossip", Peers: peers, Topics: []string{"t"}, Params: "d2tight", Scoring: true, PX: true,
+		Prefix: append(append([]string{}, prefix...), "join:t", "hb")},
+		Alphabet: []string{"hb", "prunepx:a:t", "prunepx:c:t", "score:a:3", "score:a:1", "score:c:2.5", "graft:a:t", "adv:1100", "adv:4100"}, Depth: d})
 	// a peer under backoff goes away and comes back inside the window (the backoff has to outlive its streams)
 	mk("tight-return", "d2tight", 0, append(append([]string{}, prefix...), "join:t", "hb"), []string{"hb", "prune:a:t", "prune:a:t:60", "disc:a", "conn:a", "sub:a:t", "outreset:a", "graft:a:t", "adv:1100", "leave:t", "join:t"})
 	return out
